@@ -48,7 +48,7 @@ func (fx *FnCtx) havocHeapsR(st *State, m *Modset, resolve func(ssa.Value) (Term
 			}
 			h := fx.s.freshConst("Hh", "(Array Ref "+srt+")")
 			st.heaps[key] = h
-			if !e.otherRoots && len(e.allocRoots) > 0 && resolve != nil && !e.isMap {
+			if !e.otherRoots && len(e.allocRoots) > 0 && resolve != nil {
 				// every write to an older cell goes through one of these locals: all other cells are unchanged
 				var excl []Term
 				okAll := true
